@@ -337,18 +337,84 @@ def check_history(ctx, case):
             ctx.oracle(not bad or bool(sig), case, {"why": "a remote is not closed after the push of step %d" % n, "remote": r, "dangling": bad[:3]})
 
 
+def gen_file_remote(rng):
+    """the remote role is played by a plain directory (a FileStorage, as for imported data), the cache by an object store"""
+    files = {}
+    for i in range(rng.randrange(2, 7)):
+        k = tuple(rng.choice(["d", "e"]) for _ in range(rng.randrange(0, 2))) + ("f%d" % i,)
+        files["/".join(k)] = "content-%d-%d" % (i, rng.randrange(10**6))  # distinct contents: one object per entry
+    names = sorted(files)
+    return {"file_remote": files, "fail": [n for n in names if rng.random() < rng.choice([0.0, 0.3, 0.6])],
+            "absent": [n for n in names if rng.random() < 0.15], "cached": [n for n in names if rng.random() < 0.2],
+            "local": rng.random() < 0.5, "dir_entries": rng.random() < 0.5}
+
+
+def check_file_remote(ctx, case):
+    from dvc_data.hashfile.hash_info import HashInfo
+    from dvc_data.hashfile.meta import Meta
+    from dvc_data.index.collect import collect
+    from dvc_data.index.fetch import fetch
+    from dvc_data.index.index import DataIndex, DataIndexEntry, FileStorage, ObjectStorage
+
+    root = ctx.mkdtemp()
+    files = {sp(k): v.encode() for k, v in case["file_remote"].items()}
+    absent = {sp(k) for k in case["absent"]}
+    gen.materialize(os.path.join(root, "data"), {k: v for k, v in files.items() if k not in absent})
+    os.makedirs(os.path.join(root, "data"), exist_ok=True)
+    odb = stores.make_odb(os.path.join(root, "cache"), local=case["local"])
+    for k in case["cached"]:
+        stores.put_raw(odb.path, md5hex(files[sp(k)]), files[sp(k)])
+    idx = DataIndex()
+    if case["dir_entries"]:
+        for d in sorted({k[:i] for k in files for i in range(1, len(k))}):
+            idx[d] = DataIndexEntry(key=d, meta=Meta(isdir=True), loaded=True)
+    for k, v in files.items():
+        idx[k] = DataIndexEntry(key=k, meta=Meta(size=len(v)), hash_info=HashInfo("md5", md5hex(v)))
+    idx.storage_map.add_remote(FileStorage((), stores.fs_local(), os.path.join(root, "data")))
+    idx.storage_map.add_cache(ObjectStorage((), odb))
+    before = set(stores.listing_of(odb.path))
+    failing = {md5hex(files[sp(k)]) for k in case["fail"]}
+    ctx.case(case, nontrivial=len(files) >= 2)
+    ctx.count("file_remote: failing=%s absent=%s" % (bool(failing), bool(absent)))
+
+    def f():
+        with stores.Faults(odb, failing).active():
+            return fetch(collect([idx], "remote"))
+
+    kind, res = safe_call(f)
+    ctx.oracle(kind == "ok", case, {"why": "fetch from a directory remote raised", "impl": str(res)})
+    if kind != "ok":
+        return
+    after = set(stores.listing_of(odb.path))
+    had_to_move = {md5hex(v) for k, v in files.items() if k not in absent} - before
+    # (the directory objects save() builds for directory entries are made locally: they are not fetched objects)
+    arrived = {o for o in after - before if not o.endswith(".dir")}
+    ctx.oracle(res[0] == len(arrived), case, {"why": "the fetched count differs from the number of objects that arrived", "reported": list(res), "arrived": sorted(arrived)})
+    ctx.oracle(res[0] + res[1] == len(had_to_move), case,
+               {"why": "fetched + failed do not add up to the objects that had to move (a failed copy is not counted)", "reported": list(res),
+                "had_to_move": sorted(had_to_move), "arrived": sorted(arrived), "failing": sorted(failing & had_to_move)})
+    for o in arrived:
+        ctx.oracle(md5hex(stores.read_obj(odb.path, o)) == o, case, {"why": "a fetched object has the wrong bytes", "oid": o})
+    # a clean retry completes the cache
+    kind2, res2 = safe_call(lambda: fetch(collect([idx], "remote")))
+    final = set(stores.listing_of(odb.path))
+    ctx.oracle(kind2 == "ok" and had_to_move <= final, case, {"why": "a clean retry of the fetch does not complete the cache", "missing": sorted(had_to_move - final), "retry": str(res2)})
+
+
 def run(ctx):
     ctx.rule = (
         "indexes with files and directory objects (nested listings, contents shared between trees and prefixes) under 1-4 storage "
         "prefixes (root, sub-trees, and sub-directories strictly inside directory objects) whose cache/remote roles are set independently and whose remotes may be shared by sibling "
         "prefixes; a first push with a random subset of failing uploads, a clean retry, fetch into empty caches, checkout from them; "
-        "with/without a remote index, both store classes; histories of 2-3 pushes of different sub-indexes through the same remotes with persistent existence indexes, the remotes being garbage-collected by somebody else in between. non-trivial = >=2 prefixes and something to push"
+        "with/without a remote index, both store classes; histories of 2-3 pushes of different sub-indexes through the same remotes with persistent existence indexes, the remotes being garbage-collected by somebody else in between; fetches from a remote that is a plain directory (FileStorage) into an object-store cache with failing copies, absent sources and a clean retry (counts against what arrived). non-trivial = >=2 prefixes and something to push"
     )
     ctx.assumptions = ["collection is per mapping prefix: a shorter prefix's storage may also receive objects of a longer prefix (allowed by the statement)"]
     for _ in range(ctx.n(90, 1000)):
         check(ctx, gen_case(ctx.rng))
     for _ in range(ctx.n(50, 600)):
         check_history(ctx, gen_history(ctx.rng))
+    for _ in range(ctx.n(40, 500)):
+        check_file_remote(ctx, gen_file_remote(ctx.rng))
 
 
 def search(ctx):
@@ -358,4 +424,4 @@ def search(ctx):
 
 def replay(ctx, payload):
     c = payload.get("case") or payload.get("diverging_case")
-    (check_history if c.get("history") else check)(ctx, c)
+    (check_history if c.get("history") else check_file_remote if c.get("file_remote") else check)(ctx, c)
